@@ -314,6 +314,10 @@ func genC14(r *rng, tier string, emit func(string)) {
 			ss.SetInt64(1)
 		}
 		emit(fmt.Sprintf("sigasn1 %s %s", bhex(rr), bhex(ss)))
+		if i < 9 { // the ends of the signature range [1, n-1]
+			ends := []*big.Int{big.NewInt(1), new(big.Int).Sub(sm2N, big.NewInt(1)), new(big.Int).Sub(sm2N, big.NewInt(2))}
+			emit(fmt.Sprintf("sigasn1 %s %s", bhex(ends[i%3]), bhex(ends[i/3])))
+		}
 		ct := append([]byte{4}, r.bytes(64)...)
 		if i%3 == 0 {
 			copy(ct[1:], make([]byte, 1+r.intn(3))) // short x
